@@ -20,13 +20,15 @@ import (
 //	         {t:"var", lhs:[lv], rest:int, eq:bool, rhs:[expr]}    rest: 1-based position of the @lvalue, 0 = none
 //	         {t:"set"|"tmp", lhs:[lv], rest:int, rhs:[expr]}
 //	         {t:"del", lhs:[lv]}
+//	         {t:"use", spec:name, as:[name]?}
+//	         {t:"with", assigns:[{lhs:[lv], rest:int, rhs:[expr]}], body:chunk}
 //	         {t:"fn", name, lam:lam}
 //	         {t:"if", arms:[[expr, chunk]], els:[chunk]?}
 //	         {t:"while", cond:expr, body:chunk, els:[chunk]?}
 //	         {t:"for", v:lv, iter:expr, body:chunk, els:[chunk]?}
 //	         {t:"try", body:chunk, cvar:[name]?, catch:[chunk]?, els:[chunk]?, fin:[chunk]?}
 //	         {t:"and"|"or"|"coalesce", args:[expr]}
-//	lv       {n:name, idx:[expr]}
+//	lv       {n:name, idx:[expr], q:[ns-name]}        q: namespace qualifiers ($m:x is n "x", q ["m:"])
 //	expr     {t:"str", v:[byte]} {t:"var", n, explode} {t:"list", es} {t:"map", ps:[[expr,expr]]}
 //	         {t:"idx", e, is:[expr]} {t:"cat", es} {t:"brace", es} {t:"cap", c:chunk} {t:"xcap", c:chunk}
 //	         {t:"lam", params:[name], rest:int, opts:[[name,expr]], body:chunk}
@@ -72,6 +74,11 @@ type Node struct {
 	C       *Node      // cap xcap
 
 	Params []string // lam
+
+	Assigns []*Node // with: nodes of kind "set" (lhs, rest, rhs)
+
+	Q  []string // varx, name: namespace qualifiers, e.g. ["m:"] for $m:x
+	As string   // use: alias ("" = none); Name holds the spec
 }
 
 type Opt struct {
@@ -82,6 +89,7 @@ type Opt struct {
 type LV struct {
 	N   string
 	Idx []*Node
+	Q   []string // namespace qualifiers
 }
 
 type Arm struct {
@@ -104,7 +112,15 @@ func optional(n *Node) []any {
 	return []any{n}
 }
 
-func lvJSON(lv LV) any { return map[string]any{"n": lv.N, "idx": nodes(lv.Idx)} }
+func strsJSON(ss []string) []any {
+	out := make([]any, len(ss))
+	for i, s := range ss {
+		out[i] = s
+	}
+	return out
+}
+
+func lvJSON(lv LV) any { return map[string]any{"n": lv.N, "idx": nodes(lv.Idx), "q": strsJSON(lv.Q)} }
 
 func lvsJSON(lvs []LV) []any {
 	out := make([]any, len(lvs))
@@ -121,6 +137,9 @@ func optsJSON(os []Opt) []any {
 	}
 	return out
 }
+
+// BytesJSON converts bytes to the JSON form used in traces.
+func BytesJSON(b []byte) []int { return bytesJSON(b) }
 
 func bytesJSON(b []byte) []int {
 	out := make([]int, len(b))
@@ -144,6 +163,14 @@ func (n *Node) MarshalJSON() ([]byte, error) {
 		m["opts"] = optsJSON(n.Opts)
 	case "name":
 		m["n"] = n.Name
+		m["q"] = strsJSON(n.Q)
+	case "use":
+		m["spec"] = n.Name
+		if n.As == "" {
+			m["as"] = []any{}
+		} else {
+			m["as"] = []any{n.As}
+		}
 	case "bad":
 		m["kind"] = n.Name
 	case "var":
@@ -157,6 +184,13 @@ func (n *Node) MarshalJSON() ([]byte, error) {
 		m["rhs"] = nodes(n.Rhs)
 	case "del":
 		m["lhs"] = lvsJSON(n.Lhs)
+	case "with":
+		as := make([]any, len(n.Assigns))
+		for i, a := range n.Assigns {
+			as[i] = map[string]any{"lhs": lvsJSON(a.Lhs), "rest": a.Rest, "rhs": nodes(a.Rhs)}
+		}
+		m["assigns"] = as
+		m["body"] = n.Body
 	case "fn":
 		m["name"] = n.Name
 		m["lam"] = n.Lam
@@ -194,6 +228,7 @@ func (n *Node) MarshalJSON() ([]byte, error) {
 		m["t"] = "var"
 		m["n"] = n.Name
 		m["explode"] = n.Explode
+		m["q"] = strsJSON(n.Q)
 	case "list", "cat", "brace":
 		m["es"] = nodes(n.Es)
 	case "map":
@@ -311,6 +346,14 @@ func (n *Node) Kids() []*Node {
 		add(n.Rhs...)
 	case "fn":
 		add(n.Lam)
+	case "with":
+		for _, a := range n.Assigns {
+			for _, lv := range a.Lhs {
+				addLV(lv)
+			}
+			add(a.Rhs...)
+		}
+		add(n.Body)
 	case "if":
 		for _, a := range n.Arms {
 			add(a.Cond, a.Body)
